@@ -66,7 +66,7 @@ REQUIRED = dict(
              'bin:targets-overlap-each-other', 'bin:spans-native-gap',
              'ndim:1', 'ndim:2', 'error:yes', 'error:no', 'native-order:shuffled', 'target-order:shuffled',
              'call:2d-with-error', 'route:bin_model', 'route:forward-model', 'same-binner:narrower-widths',
-             'same-binner:derived-widths', 'same-binner:other-grid-same-length', 'same-binner:first-again', 'same-binner:dozens-of-native-grids-earlier-ones-again',
+             'same-binner:derived-widths', 'same-binner:other-grid-same-length', 'same-binner:first-again', 'same-binner:dozens-of-native-grids-earlier-ones-again', 'spectrum-dtype:integer', 'spectrum-dtype:single-precision', 'spectrum-dtype:big-endian',
              'same-binner:other-spacing-same-ends-new-binner', 'same-binner:same-arrays-refilled-in-place', 'target:integer-centres',
              'bin_model:again:same', 'bin_model:again:other-spacing', 'bin_model:again:shuffled', 'bin_model:again:other-spectrum'])
 EPS = float(np.finfo(float).eps)
@@ -154,9 +154,19 @@ def call_flags(binner, wngrid, spectrum, grid_width, error):
 
 
 # -------------------------------------------------------------- flux oracle
+def rt_of(*arrays):
+    """Relative tolerance of a comparison: 1e-12, or single-precision rounding when a spectrum / error array was handed over
+    in single precision (arithmetic on float32 input may legitimately be done in float32)."""
+    for a in arrays:
+        if a is not None and getattr(a, 'dtype', None) is not None and a.dtype.kind == 'f' and a.dtype.itemsize <= 4:
+            return 1e-5
+    return RTOL
+
+
 def judge_flux(ctx, decl, call, res):
     """Decide one FluxBinner.bindown execution from its arguments and the declared target grid."""
     flags = call['flags']
+    RT = rt_of(*call['raw'])
     spectrum, error = call['spectrum'], call['error']
     # ---- domain of the quantifier (counted, not judged, when outside)
     if spectrum.ndim not in (1, 2) or spectrum.shape[-1] != call['wngrid'].shape[0] or call['wngrid'].ndim != 1:
@@ -236,7 +246,7 @@ def judge_flux(ctx, decl, call, res):
     if not np.any(judged):
         ctx.event('flux-call-without-judged-bin')
     else:
-        ctx.close('flux:overlap-mean', got[..., judged], want[..., judged], RTOL, atol=atol[judged], call=flags,
+        ctx.close('flux:overlap-mean', got[..., judged], want[..., judged], RT, atol=atol[judged], call=flags,
                   native_kind=nkind, target_kind=tkind, n_native=len(nc), K=K)
         # between the smallest and largest overlapping native value
         lo_b = np.empty(want.shape)
@@ -245,7 +255,7 @@ def judge_flux(ctx, decl, call, res):
             ovm = (np.minimum(nhi, thi[k]) - np.maximum(nlo, tlo[k])) > 0
             lo_b[..., k] = f[..., ovm].min(axis=-1)
             hi_b[..., k] = f[..., ovm].max(axis=-1)
-        slack = atol + RTOL * fmax
+        slack = atol + RT * fmax
         g, a, b = got[..., judged], lo_b[..., judged], hi_b[..., judged]
         inside = (g >= a - slack[judged]) & (g <= b + slack[judged])
         ctx.check('flux:within-overlapping-minmax', np.all(inside), call=flags,
@@ -263,12 +273,12 @@ def judge_flux(ctx, decl, call, res):
         else:
             got_e = np.asarray(got_e, dtype=float)
             if got_e.shape == want_e.shape:
-                ctx.close('flux:error-quadrature', got_e[..., judged], want_e[..., judged], RTOL, atol=eatol[judged],
+                ctx.close('flux:error-quadrature', got_e[..., judged], want_e[..., judged], RT, atol=eatol[judged],
                           call=flags)
             elif e.ndim == 1 and got_e.shape == f.shape[:-1] + (K,):
                 ctx.observe('error:broadcast-over-rows')
                 ctx.close('flux:error-quadrature', got_e[..., judged],
-                          np.broadcast_to(want_e, got_e.shape)[..., judged], RTOL, atol=eatol[judged], call=flags)
+                          np.broadcast_to(want_e, got_e.shape)[..., judged], RT, atol=eatol[judged], call=flags)
             else:
                 ctx.check('flux:error-quadrature', False, call=flags, problem='shape', got_shape=list(got_e.shape),
                           want_shape=list(want_e.shape))
@@ -616,6 +626,17 @@ def wl_flux(ctx, rng):
     f = gen_spectrum(rng, c, ndim)
     has_err = ndim == 1 and rng.random() < 0.6
     e = np.abs(gen_spectrum(rng, c, 1)) * 0.1 + 1e-8 if has_err else None
+    if rng.random() < 0.15:
+        # the spectrum (and its errors) in another representation: integer counts, single precision, big-endian (as read
+        # from a file); the binned value is the overlap-weighted mean of those numbers all the same
+        dt = ['int64', 'int32', '>i4', 'float32', '>f8', '>f4'][rng.integers(0, 6)]
+        sc = 1.0 if 'f' in dt else 1e4 / max(float(np.max(np.abs(f))), 1e-300)
+        f = np.round(f * sc).astype(dt) if 'i' in dt else np.asarray(f).astype(dt)
+        if has_err:
+            # integer errors up to 1e5 (int32 squares overflow above 46340 -- the repaired C05/integer-error-array finding)
+            esc = 1.0 if 'f' in dt else float(10 ** rng.uniform(3, 5)) / max(float(np.max(np.abs(e))), 1e-300)
+            e = np.maximum(np.round(e * esc), 1).astype(dt) if 'i' in dt else np.asarray(e).astype(dt)
+        ctx.observe('spectrum-dtype:' + ('integer' if 'i' in dt else ('single-precision' if '4' in dt else 'big-endian')))
     tc, tw, kinds = gen_target(rng, nlo, nhi, nw)
     K = len(tc)
     observe_inputs(ctx, nk, kinds, ndim, has_err)
@@ -636,6 +657,7 @@ def wl_flux(ctx, rng):
         ctx.sample({'native': nk, 'n': n, 'target_pieces': kinds, 'K': K, 'ndim': ndim, 'error': has_err,
                     'judged_bins': int(judged.sum()), 'first_bins': np.asarray(r0[1])[..., :3]})
     v0 = np.asarray(r0[1], dtype=float)
+    RTW = rt_of(f, e)
     atol = j0['atol']
 
     # (a) native rows permuted together
@@ -645,11 +667,11 @@ def wl_flux(ctx, rng):
     r1 = guarded(B.bindown, c[p], f[..., p], grid_width=(w[p] if arr_w else w), error=(e[p] if has_err else None))
     fl = dict(ctx.features.get('last_call', {}))
     if r1 is not None:
-        ctx.close('flux:native-order-invariance', np.asarray(r1[1], dtype=float)[..., judged], v0[..., judged], RTOL,
+        ctx.close('flux:native-order-invariance', np.asarray(r1[1], dtype=float)[..., judged], v0[..., judged], RTW,
                   atol=atol[judged], call=fl)
         if has_err and r1[2] is not None and r0[2] is not None:
             ctx.close('flux:native-order-invariance', np.asarray(r1[2], dtype=float)[judged],
-                      np.asarray(r0[2], dtype=float)[judged], RTOL, atol=1e-13 * float(np.max(e)), call=fl,
+                      np.asarray(r0[2], dtype=float)[judged], RTW, atol=1e-13 * float(np.max(e)), call=fl,
                       what='errors')
     # (b) target rows permuted together: compared as a map centre -> (width, value)
     q = rng.permutation(K)
@@ -664,7 +686,7 @@ def wl_flux(ctx, rng):
         if ok_keys:
             idx = np.array([m0[float(a)] for a in r2[0]])
             ctx.close('flux:target-order-invariance', np.asarray(r2[1], dtype=float)[..., judged[idx]],
-                      v0[..., idx][..., judged[idx]], RTOL, atol=atol[idx][judged[idx]],
+                      v0[..., idx][..., judged[idx]], RTW, atol=atol[idx][judged[idx]],
                       call=dict(ctx.features['last_call']))
             ctx.close('flux:target-order-invariance', r2[3], np.asarray(r0[3])[idx], 0.0, what='widths')
     # (c) a constant spectrum stays constant
@@ -684,7 +706,7 @@ def wl_flux(ctx, rng):
         scale = abs(a_) * float(np.max(np.abs(f))) + abs(b_) * float(np.max(np.abs(g)))
         rel = atol / (j0['fmax'] if j0['fmax'] > 0 else 1.0)
         ctx.close('flux:linearity', np.asarray(r5[1], dtype=float)[..., judged],
-                  (a_ * v0 + b_ * np.asarray(r4[1], dtype=float))[..., judged], RTOL,
+                  (a_ * v0 + b_ * np.asarray(r4[1], dtype=float))[..., judged], RTW,
                   atol=(4 * rel[judged] + 1e-13) * scale, call=dict(ctx.features['last_call']))
 
 
